@@ -18,6 +18,7 @@ use tftpd::{Packet, Socket, Worker};
 
 pub fn judge_sim(dir: &Path, sc: &Scenario, obs: &mut Obs) -> Judge {
     let (r, _f, fa) = run_and_judge(dir, sc, obs, &["S9", "S1", "S2", "R1", "R2", "R5", "S6", "R4"])?;
+    obs.class_if(!r.hits.is_empty(), "burst-loss-in-duplicate-mode");
     obs.nontrivial = sc.repeat >= 2 && sc.nblocks() >= 1;
     obs.class(match sc.repeat {
         1 => "N=0",
@@ -51,14 +52,29 @@ pub fn sim_strategy() -> BoxedStrategy<Scenario> {
         0usize..8,
         any::<u64>(),
         any::<bool>(),
+        proptest::collection::vec(0usize..60, 0..3),
     )
-        .prop_map(|(role, n, ws, blocks, rem, seed, hs)| {
+        .prop_map(|(role, n, ws, blocks, rem, seed, hs, bursts)| {
             let blk = 8usize;
             let blocks = if n == 254 { blocks % 2 } else { blocks };
             let mut sc = Scenario::lossless(role, blk, ws, blocks * blk + rem, seed);
             sc.repeat = n + 1;
             sc.handshake = hs && role == Role::Sender;
             sc.after = After::Honest;
+            // a burst loss swallows N+1 back-to-back datagrams (all copies of one emission, if aligned)
+            if n >= 1 && n <= 3 && seed % 2 == 0 {
+                let mut fates = vec![];
+                for b in bursts {
+                    let p = b * (n as usize + 1) / 1;
+                    if fates.len() < p + n as usize + 1 {
+                        fates.resize(p + n as usize + 1, crate::sim::Fate::Deliver);
+                    }
+                    for k in 0..=(n as usize) {
+                        fates[p + k] = crate::sim::Fate::Drop;
+                    }
+                }
+                sc.fates = fates;
+            }
             sc
         })
         .boxed()
